@@ -29,6 +29,10 @@ type KeptState struct {
 	// messages go: rejected like them (one ErrorResponse, optional ReadyForQuery), what follows is read
 	// as it stands - a length of 0..3 never turns into a skip of 2^32 bytes
 	SubMin []uint32 `json:"sub_min,omitempty"`
+	// Discarding: a failing extended message (Bind of an unknown statement) precedes the oversized
+	// messages, so that they arrive while the session discards up to the next Sync; their bodies then
+	// consist of message-shaped bytes (Sync, Query): a body is skipped, never read as messages
+	Discarding bool `json:"discarding,omitempty"`
 }
 
 func (c KeptState) History() History {
@@ -65,8 +69,24 @@ func (c KeptState) History() History {
 		script.CMsg{K: "B", Portal: "pk", Name: "sk", Params: []*[]byte{&val}},
 		script.CMsg{K: "S"})
 	fill(c.Mid)
+	if c.Discarding && c.Overs > 0 {
+		h.Msgs = append(h.Msgs, script.CMsg{K: "B", Portal: "never", Name: "no such statement"})
+	}
 	for i := 0; i < c.Overs; i++ {
+		if c.Discarding {
+			body := make([]byte, 0, c.Limit+c.OverBy)
+			unit := append(pgwire.Sync(), pgwire.Query("smuggled in a skipped body")...)
+			for len(body)+len(unit) <= c.Limit+c.OverBy {
+				body = append(body, unit...)
+			}
+			body = append(body, make([]byte, c.Limit+c.OverBy-len(body))...)
+			h.Msgs = append(h.Msgs, script.CMsg{K: "raw", Over: true, Data: pgwire.Msg(c.OverType, body)})
+			continue
+		}
 		h.Msgs = append(h.Msgs, script.CMsg{K: "raw", Over: true, Data: pgwire.Msg(c.OverType, make([]byte, c.Limit+c.OverBy))})
+	}
+	if c.Discarding && c.Overs > 0 {
+		h.Msgs = append(h.Msgs, script.CMsg{K: "S"})
 	}
 	for _, lw := range c.SubMin {
 		h.Msgs = append(h.Msgs, script.CMsg{K: "raw", Over: true, MayClose: true, Data: pgwire.RawFrame(c.OverType, lw%4, nil)})
